@@ -15,6 +15,9 @@ sys.setrecursionlimit(20000)
 
 import os as _os
 CROSS_EVERY = int(_os.environ.get('MIRSE_CROSS_EVERY', '0') or 0)
+# single-byte decision shortcut (see Ctx._byte_shortcut): opt-in per spec, because tabulating and scanning the admitted values costs
+# more than it saves where most decisions involve several symbols (C09-C11: 3-5x slower with it)
+BYTE_SHORTCUT = False
 
 
 class Infeasible(Exception):
@@ -81,7 +84,7 @@ class Ctx:
             self.model = None
         # assumptions over a single 8-bit symbol (alphabets of symbolic bytes): remember the admitted values, so that later
         # decisions about that byte alone can be taken by evaluation instead of by a solver call (see _byte_shortcut)
-        v = self._single_byte_var(cond)
+        v = self._single_byte_var(cond) if BYTE_SHORTCUT else None
         if v is not None:
             old = self.byte_sets.get(v.get_id())
             cand = old[1] if old else range(256)
